@@ -13,7 +13,12 @@ Request lines (harness: harness/src/ops_classgroup.rs, model: lean/Ymq/Drv/Class
   cg_b_plus p r even             Prime::b_plus                                                      (K + O)
   cg_fb_bplus D size             p:r:b_plus for the factor base the class group code builds         (O)
   cg_crel_history maxlarge rels  CRelationSet::add over a history: emitted relations + counters     (K + O)
-  cg_poly D threads-unused aidx  hook: one polynomial of the real sieve with the relations it produced (model follow-ups)
+  cg_poly D first count target [1]  hook: polynomials first..first+count of the real sieve (fresh relation set each, sieve stops after
+                                 `target` complete relations; last argument 1 = double large primes forced) with the relations they
+                                 produced (O: every relation by form arithmetic; model follow-ups cg_poly_model = K on relationOf).
+                                 A panic of cg_poly / rf_real is ALWAYS an oracle failure (relation_no_panic); cg_h / cg_full / cg_poly
+                                 answer `panic <message> @ <file>:<line>`: for cg_h / cg_full only the recorded refusals
+                                 (RECORDED_REFUSALS: C19 lattice index, Smith form assertion) are accepted as refusals
 
 Model-only follow-up lines (built from the implementation's answers):
   cg_classnumber D               reference class number of the model (enumeration of reduced forms)
@@ -919,6 +924,32 @@ def _d_with_h_in(rng, lo, hi, cls):
     return best[1]
 
 
+DBLFAM_BITS = (34, 40, 48, 56, 64, 72, 80, 90, 100, 110, 120, 128)
+DBLFAM_MIN_RELS = 400      # large2 executions required from the family in EACH profile (a run gives ~5000)
+DBLFAM_MIN_SIDE = 80       # ... with large1 < large2, with large1 > large2, with exponent +1 and with exponent -1, each
+
+
+def double_family_cases():
+    """DETERMINISTIC family (the same requests in every run, whatever the seed; both profiles): the real sieve with the double
+    large prime variation forced (`cg_poly D first count target 1` = Preferences::use_double = Some(true)), 12 sizes x 4 classes
+    of fundamental D, 3 polynomials each, so that the `large2` block of sieve_block_poly (second large prime: sign of
+    bx mod q, parity rule) runs thousands of times, with both orders of the two primes returned by try_factor64 and both signs.
+    Judged by the oracle (every relation re-checked by form arithmetic; ANY panic is a failure: the model of the loop body is
+    panic-free) and K-compared with the model relationOf through the follow-up cg_poly_model, relations with two large primes first.
+    The last request carries a vacuity guard on the number of large2 executions seen."""
+    import random
+    rng = random.Random("C18-dblfam")
+    out = []
+    for bits in DBLFAM_BITS:
+        for cls in (1, 5, 8, 12):
+            D = random_fundamental(rng, bits, cls)
+            first = rng.randrange(0, 3 if bits <= 40 else 16)
+            out.append(f"cg_poly {D} {first} 3 150 1")
+    for i, line in enumerate(out):
+        tag = "dblfam/first" if i == 0 else ("dblfam/last" if i == len(out) - 1 else "dblfam")
+        yield Case(line, k=False, timeout=120, tag=tag)
+
+
 def boundary_cases(rng, tier):
     """size classes the random families never reach (see SIZE AUDIT): |D| on both sides of 64 and 128 bits, class numbers on both
     sides of 2^63 and 2^64 (SmithNormalForm switches from i128 to I256 row operations at h = 2^63/N; invariants and generator
@@ -1224,6 +1255,7 @@ def cases(tier, rng, extended=False):
         X = max(X, 400000)
     table_upto(X)
     yield from boundary_cases(_fork(rng, "C18-boundary"), tier)
+    yield from double_family_cases()
     yield from estimate_boundary_cases(_fork(rng, "C18-estimate-boundary"), tier)
     yield from nonfundamental_poly_cases(_fork(rng, "C18-nonfundamental"), tier)
     if not extended:
@@ -1415,7 +1447,37 @@ def _sylow_wanted(n):
     return True                              # every discriminant with an independent class number
 _EST_PRIMES = []
 _RATE = {"n": 0, "bad": 0}
-_COV = {"lines": 0, "lines_with_coords": 0, "sparse_empty": 0, "filtered": 0, "removed": 0, "sylow": 0, "sylow_inconclusive": 0}
+_COV = {"lines": 0, "lines_with_coords": 0, "sparse_empty": 0, "filtered": 0, "removed": 0, "sylow": 0, "sylow_inconclusive": 0,
+        "dbl_requests": 0, "dbl_rels": 0, "dbl_p_lt_q": 0, "dbl_p_gt_q": 0, "dbl_e2_plus": 0, "dbl_e2_minus": 0,
+        "dbl_e1_plus": 0, "dbl_e1_minus": 0, "poly_panics": 0, "refusals_recorded": 0}
+_DBLFAM = {"rels": 0, "lt": 0, "gt": 0, "plus": 0, "minus": 0, "n": 0}
+
+
+def _pans(ans):
+    """the harness answers `panic <message> @ <file>:<line>` (first panic of the request) for cg_h / cg_full / cg_poly:
+    -> ("panic", "<message> @ <file>:<line>"); every other answer -> (answer, "")"""
+    if ans.startswith("panic "):
+        return "panic", ans[6:]
+    return ans, ""
+
+
+# the ONLY panics of classgroup() that count as refusals (not results, outside C18's quantifier): the recorded findings of C19
+# (known_findings.json), recognised by message AND source file of the first panic of the request
+RECORDED_REFUSALS = (
+    # lattice-index-refusal / sparse-lattice-index-refusal / sparse-lattice-index-selection
+    ("lattice-index", "failed to determine lattice index", ("matrix/intdense.rs", "matrix/intsparse.rs")),
+    # snf-reduce-refusal: assert_eq!(det, self.h as i128, "generators {:?}", ..) in SmithNormalForm::reduce
+    ("snf-reduce", "generators [", ("matrix/intdense.rs",)),
+)
+
+
+def refusal_kind(pmsg):
+    """name of the recorded refusal a panic message belongs to, or None (any other panic)"""
+    msg, _, loc = pmsg.rpartition(" @ ")
+    for name, text, files in RECORDED_REFUSALS:
+        if text in msg and any(("/" + f + ":") in loc or loc.startswith("src/" + f + ":") for f in files):
+            return name
+    return None
 
 
 def analytic_estimate(D):
@@ -1599,6 +1661,7 @@ def sparse_empty_structure(case, ans):
     """(h, D) when the answer has the shape of the group_structure_sparse defect: a factor base above 800 was
     requested (`fb=`) or chosen by the default parameters (|D| of 140 bits or more), a class number h > 1 was returned and NO cyclic factor is listed; else None"""
     case = _norm(case)
+    ans = _pans(ans)[0]
     if case.op not in ("cg_h", "cg_full") or ans in ("panic", "abort", "hang", "?", "none"):
         return None
     if int(case_kv(case).get("fb", "0")) < 808 and (-int(case.args[0])).bit_length() < 140:
@@ -1636,6 +1699,7 @@ def oracle(case, ans):
         return ymcls_oracle(case, ans)
     case = _norm(case)
     op, a = case.op, case.args
+    ans, pmsg = _pans(ans)
     if op == "cg_legendre":
         return legendre_oracle(case, ans)
     if op == "cg_estimate_bits":
@@ -1658,10 +1722,24 @@ def oracle(case, ans):
     if op in ("cg_h", "cg_full"):
         _RATE["n"] += 1
     if ans in ("panic", "abort", "hang", "?"):
-        # C18 speaks about returned results; a refusal is not a wrong result (counted in the distribution).
+        # C18 speaks about returned results; a RECORDED refusal (refusal_kind) is not a wrong result (counted in the distribution).
         # Vacuity guard: when most computations are refused the check would pass without checking anything.
+        if op == "cg_poly" and ans in ("panic", "abort"):
+            # cg_poly runs the real per-polynomial sieve (vh_sieve_polys -> siqs_sieve_poly -> sieve_block_poly); the model of
+            # its loop body (relationOf) answers every request built from a real trace and is proved panic-free
+            # (relation_no_panic): a panic of the real code here is a model/code DISAGREEMENT, in either profile, never a refusal
+            _COV["poly_panics"] += 1
+            return (f"D = {a[0]}: the real sieve panicked on polynomials {a[1]}.. ({pmsg or ans}); the model of the loop body "
+                    f"(relationOf, theorem relation_no_panic) never panics: model/code disagreement")
         if op in ("cg_h", "cg_full"):
             _RATE["bad"] += 1
+            if ans in ("panic", "abort"):
+                kind = refusal_kind(pmsg)
+                if kind is None:
+                    # a refusal is accepted ONLY when it is one of the recorded ones (C19: lattice index, Smith form)
+                    return (f"D = {a[0]}: classgroup() panicked with a message that is not a recorded refusal: "
+                            f"{pmsg or ans!r} (recorded: {', '.join(t for _, t, _ in RECORDED_REFUSALS)})")
+                _COV["refusals_recorded"] += 1
             if _RATE["n"] >= 200 and 2 * _RATE["bad"] > _RATE["n"]:
                 return (f"vacuity guard: classgroup() gave no result for {_RATE['bad']} of the first {_RATE['n']} discriminants "
                         f"({ans} on D = {a[0]}); the property is about returned results and would hold vacuously")
@@ -1768,7 +1846,37 @@ def oracle(case, ans):
                 return f"D = {D}: polynomial ({pol['a']}, {pol['b']}, {pol['c']}) type {pol['type']} has discriminant {disc}"
             for r in pol["rels"]:
                 ents.append(_rel_entries(*r))
-        return _check_lines(D, ents, "sieved relation")
+        msg = _check_lines(D, ents, "sieved relation")
+        if msg:
+            return msg
+        # coverage of the `large2` block of sieve_block_poly: relations with two distinct large primes, both orders, both signs
+        fam = case.tag.startswith("dblfam")
+        if case.tag == "dblfam/first":
+            for k in _DBLFAM:
+                _DBLFAM[k] = 0
+        if len(a) > 4 and a[4] == "1":
+            _COV["dbl_requests"] += 1
+        if fam:
+            _DBLFAM["n"] += 1
+        for pol in tr["polys"]:
+            for fs, l1, l2 in pol["rels"]:
+                if l1 and l2:
+                    _COV["dbl_rels"] += 1
+                    _COV["dbl_p_lt_q" if l1[0] < l2[0] else "dbl_p_gt_q"] += 1
+                    _COV["dbl_e2_plus" if l2[1] > 0 else "dbl_e2_minus"] += 1
+                    _COV["dbl_e1_plus" if l1[1] > 0 else "dbl_e1_minus"] += 1
+                    if fam:
+                        _DBLFAM["rels"] += 1
+                        _DBLFAM["lt" if l1[0] < l2[0] else "gt"] += 1
+                        _DBLFAM["plus" if l2[1] > 0 else "minus"] += 1
+        if case.tag == "dblfam/last":
+            # the family is deterministic (fixed discriminants, single thread): the counts do not depend on the seed
+            f = _DBLFAM
+            if f["rels"] < DBLFAM_MIN_RELS or min(f["lt"], f["gt"]) < DBLFAM_MIN_SIDE or min(f["plus"], f["minus"]) < DBLFAM_MIN_SIDE:
+                return (f"vacuity guard: the forced-double family ({f['n']} requests answered) went through the large2 block of sieve_block_poly "
+                        f"only {f['rels']} times (large1 < large2: {f['lt']}, large1 > large2: {f['gt']}, exponent of large2 +1: {f['plus']}, -1: {f['minus']}); "
+                        f"required: {DBLFAM_MIN_RELS} in all, {DBLFAM_MIN_SIDE} on every side")
+        return None
     return "unknown op"
 
 
@@ -1830,8 +1938,12 @@ def oracle_filter(case, ans):
     op, a = case.op, case.args
     rels_txt = a[-1]
     if op == "rf_real":
-        if ans in ("panic", "hang", "abort"):
-            return None                       # sieve refusals are counted elsewhere
+        if ans in ("panic", "abort"):
+            # the real per-polynomial sieve followed by the real filter on its relations: neither has a refusal (the model of the
+            # sieve's loop body is panic-free: relation_no_panic; a filter panic on well-formed relations is judged below as well)
+            return f"D = {a[0]}: the real sieve / relation filter panicked on real sieved relations"
+        if ans == "hang":
+            return None
         rels_txt, ans = ans.split(" || ")
     if ans == "panic":
         return "panic on a well-formed relation list"
@@ -2117,6 +2229,7 @@ def _form_followups(case, ans):
 def followup(case, ans):
     case = _norm(case)
     op = case.op
+    ans = _pans(ans)[0]
     if ans in ("panic", "abort", "hang", "?", "none"):
         return None
     if op == "cg_full":
@@ -2153,7 +2266,10 @@ def followup(case, ans):
         dbl = 1 if tr["maxdouble"] > maxprime * maxprime else 0
         sA = dict(pol["qf"])
         items, want, used = [], [], set(p for p, _ in pol["af"])
-        for fs, l1, l2 in pol["rels"][:MAX_FU_LINES]:
+        rl = pol["rels"]
+        if case.tag.startswith("dblfam"):
+            rl = [r for r in rl if r[2]] + [r for r in rl if not r[2]]     # the large2 block first
+        for fs, l1, l2 in rl[:MAX_FU_LINES]:
             v = 1
             for p, e in fs:
                 v *= p ** abs(e - sA.get(p, 0))
@@ -2214,7 +2330,11 @@ def klass(case, ans):
         return f"{case.tag}/{case.args[0]}/{ans.split(' err=')[-1] if ' err=' in ans else ans}"
     reuse = "reuse-outdir/" if case.op == "cg_full_reuse" else ""
     case = _norm(case)
-    return reuse + _klass(case, ans)
+    ans, pmsg = _pans(ans)
+    k = reuse + _klass(case, ans)
+    if pmsg:
+        k += f"[{refusal_kind(pmsg) or 'UNRECORDED: ' + pmsg.rpartition(' @ ')[0][:40]}]"
+    return k
 
 
 def _klass(case, ans):
@@ -2256,6 +2376,8 @@ def _klass(case, ans):
         base += "/dbl"
     if op == "cg_poly" and case.tag.startswith("nonfund"):
         base += "/odd-conductor"
+    if op == "cg_poly" and case.tag.startswith("dblfam"):
+        base += "/family"
     if op == "cg_estimate_bits":
         return f"{op}/{dclass(D)}/{(-D).bit_length()}b{bad}"
     if op == "cg_estimate" and not bad:
@@ -2268,6 +2390,8 @@ def _klass(case, ans):
         nl = sum(1 for pol in tr["polys"] for r in pol["rels"] if r[1])
         n2 = sum(1 for pol in tr["polys"] for r in pol["rels"] if r[2])
         base += "/large2" if n2 else ("/large" if nl else "/nolarge")
+        if case.tag.startswith("dblfam"):
+            base += "x" + ("0" if n2 == 0 else ("1-4" if n2 < 5 else ("5-19" if n2 < 20 else ">=20")))
     return base + bad
 
 
@@ -2276,12 +2400,19 @@ def extra_coverage():
             "relation_lines_checked_against_reported_coordinates": _COV["lines_with_coords"],
             "classgroup_calls": _RATE["n"], "classgroup_calls_without_result": _RATE["bad"],
             "sparse_path_results_without_structure": _COV["sparse_empty"],
+            "classgroup_refusals_with_a_recorded_message": _COV["refusals_recorded"],
+            "cg_poly_panics_or_aborts": _COV["poly_panics"],
+            "cg_poly_requests_with_forced_double_large_primes": _COV["dbl_requests"],
+            "large2_block_executions_seen (relations with two distinct large primes, both profiles)": _COV["dbl_rels"],
+            "large2_block: large1 < large2 / large1 > large2": f"{_COV['dbl_p_lt_q']} / {_COV['dbl_p_gt_q']}",
+            "large2_block: exponent of large2 +1 / -1": f"{_COV['dbl_e2_plus']} / {_COV['dbl_e2_minus']}",
+            "large2_block: exponent of large1 + / -": f"{_COV['dbl_e1_plus']} / {_COV['dbl_e1_minus']}",
             "relations_filtered_lines_checked": _COV["filtered"], "relations_removed_lines_checked": _COV["removed"],
             "sylow_types_compared": _COV["sylow"], "sylow_types_inconclusive": _COV["sylow_inconclusive"]}
 
 
 def nontrivial(case, ans):
-    return ans not in ("panic", "abort", "hang", "?", "none")
+    return _pans(ans)[0] not in ("panic", "abort", "hang", "?", "none")
 
 
 THEOREMS = ["Ymq.C18." + t for t in (
@@ -2322,7 +2453,9 @@ HYPOTHESES = [
     "snf_square (rows.len() = gens.len()) and snf_diag_nonneg (diagonal entries >= 0, so that `d as u128` does not wrap); both are checked on every "
     "real result by the driver (invariantsOk)",
 ]
-RULE = ("boundary family first, in both tiers: |D| of 63..66 and 127..132 bits, class numbers chosen on both sides of 2^63 and 2^64 (full runs), "
+RULE = ("a deterministic family of 48 forced-double-large-prime sieve requests (cg_poly, 34..128 bits, 4 classes, 3 polynomials each; ~5000 executions "
+        "of the large2 block of sieve_block_poly per profile, both orders of the two large primes and both signs, guarded by a minimum count; up to 60 relations per "
+        "request replayed by the model, two-large-prime relations first); boundary family, in both tiers: |D| of 63..66 and 127..132 bits, class numbers chosen on both sides of 2^63 and 2^64 (full runs), "
         "140/150 bits (full runs in thorough), one D whose default factor base exceeds 800 primes (168 bits) and one with double large primes by default "
         "(184 bits), b_plus at the largest primes below 2^30; then: class numbers: every fundamental D with |D| below the tier bound (4*10^4 quick, 10^6 thorough), each also with a thread pool for a "
         "1/23 sample; random fundamental D of 16..34 (quick) / 16..40 (thorough) bits in the four classes D mod 16 in {1 mod 8, 5 mod 8, 8, 12}, "
@@ -2405,6 +2538,10 @@ LEVEL_NOTE = ("Partial by nature: the user-visible guarantee (h is the class num
               "classical fact. Trusted: Lean kernel (+propext, "
               "Classical.choice, Quot.sound), the hand models' correspondence to the Rust code (sampled: b_plus, relation store histories incl. the "
               "private tree through a hook, the sign decision replayed on real sieve output through a per-polynomial hook), Python integers in the "
-              "oracle. A panic/refusal of classgroup() is not a wrong result and is only counted (a vacuity guard fails the check when more than half "
-              "of the calls give no result). group_structure_sparse (|D| beyond ~256 bits or factor bases > 800) returns no invariants and is not reached.")
+              "oracle. A panic of classgroup() (ops cg_h / cg_full, whose answer carries message and location of the first panic) is a refusal, "
+              "not a wrong result, ONLY when it is one of the recorded refusals of C19 (`failed to determine lattice index` in matrix/intdense.rs or "
+              "matrix/intsparse.rs; the assert_eq!(det, h, \"generators ..\") of SmithNormalForm::reduce): those are counted (a vacuity guard fails the "
+              "check when more than half of the calls give no result); ANY other panic of classgroup(), and ANY panic of the real per-polynomial "
+              "sieve (cg_poly, rf_real: the model of the loop body is proved panic-free, relation_no_panic), in either profile, is an oracle failure "
+              "with the request as replay. group_structure_sparse (|D| beyond ~256 bits or factor bases > 800) returns no invariants and is not reached.")
 TECHNIQUE = "Lean 4 proof about a hand model + differential correspondence check + spec oracle (independent class numbers and form arithmetic)"
